@@ -235,6 +235,13 @@ def mutation_guards(cx):
     clears = [c for c in cx.prog.all_calls if c.fn is asf and c.data["callee"].endswith("Vec::clear")]
     ws = {s.data["field"] for s in cx.prog.direct_writes(asf.key) for s in [s[0]]}
     ok = len(clears) == 1 and "MemStorageCore.snapshot_metadata" in ws and "HardState.commit" in ws and "RaftState.conf_state" in ws
+    a = cx.prog.A(asf)
+    cv = [a.expr_rvalue(s.data["stmt"]["rv"], s.at) for s, fk, pl in cx.prog.direct_writes(asf.key) if fk == "HardState.commit" and "stmt" in s.data]
+    okc = len(cv) == 1 and is_f(cv[0], "SnapshotMetadata.index")
+    cx.check(okc, "apply_snapshot:commit", "apply_snapshot: hard_state.commit := the snapshot's index exactly (the entries it may have pointed into are gone) (found %s)" % [show(v) for v in cv])
+    mv = [a.expr_rvalue(s.data["stmt"]["rv"], s.at) for s, fk, pl in cx.prog.direct_writes(asf.key) if fk == "MemStorageCore.snapshot_metadata" and "stmt" in s.data]
+    okm = len(mv) == 1 and (mv[0][0] in ("local", "call")) 
+    cx.check(okm, "apply_snapshot:meta", "apply_snapshot stores the snapshot's metadata as the new snapshot point")
     cx.check(ok, "apply_snapshot:reset", "apply_snapshot replaces the snapshot point, the commit index, the configuration and clears the entries (writes: %s)" % sorted(ws))
 
 
